@@ -236,7 +236,8 @@ func runC04(c *eng.Ctx) {
 			loads := eng.Find(fn, eng.PlainCallTo("storage.Volume).load"))
 			drop := func(in ssa.Instruction) bool {
 				x, ok := in.(*ssa.Call)
-				if !ok || !eng.CalleeIs(x, "os.RemoveAll", "os.Remove") {
+				// a leveldb store is a directory (leveldb.OpenFile), so os.Remove would leave it in place
+				if !ok || !eng.CalleeIs(x, "os.RemoveAll") {
 					return false
 				}
 				return eng.Mentions(x.Call.Args[0], 4, func(v ssa.Value) bool { sfx, isS := eng.ConstString(v); return isS && sfx == ".ldb" })
@@ -285,6 +286,8 @@ func runC04(c *eng.Ctx) {
 		}
 		c.Ob("ORDER-commit", eng.FuncName(fn)+" replays-entries-after-snapshot", bound, fn.Pos(), "the replay loop is bounded by the index offset recorded when the compaction started")
 		newestEntryWins(c, "ORDER-commit", fn)
+		// the reload that follows the swap keeps the replayed entries (tombstones replayed with offset 0 included)
+		entryJudgedByData(c, "ORDER-commit")
 
 		// ---------------- (4) literal bounds on the index entry
 		idSize, _ := namedConst(P, "weed/storage/types", "NeedleIdSize")
